@@ -168,6 +168,7 @@ type op07 struct {
 	Faulty   bool // any injected fault configured
 	IsParse  bool
 	HasBoom  bool // the value contains an armed panicking Simplifier
+	Keep     bool // the caller leaves the Writer's options as they are (the previous call's; Opt/Limit/Mode hold their resolved values for the fresh instance)
 	BadOpt   bool // an argument of an unsupported type follows the other options (the call is rejected before it parses)
 }
 
@@ -194,6 +195,9 @@ func (o *op07) String() string {
 		}
 		fmt.Fprintf(&b, " value=%s opts={Indent=%d Tab=%v Sort=%v OmitNil=%v OmitEmpty=%v UseTags=%v KeyExact=%v NestEmbed=%v Color=%v} limit=%d failCall=%d", v, o.Opt.Indent, o.Opt.Tab, o.Opt.Sort, o.Opt.OmitNil, o.Opt.OmitEmpty, o.Opt.UseTags, o.Opt.KeyExact, o.Opt.NestEmbed, o.Opt.Color, o.Limit, o.FailCall)
 	}
+	if o.Keep {
+		b.WriteString(" (options left as they are)")
+	}
 	if strings.Contains(o.Subj, "pretty") {
 		fmt.Fprintf(&b, " width=%d maxDepth=%d align=%v sen=%v", []int{80, 40, 20, 10}[o.Mode%4], 1+o.Mode/4%4, o.Mode/16%2 == 1, o.Mode/32%2 == 1)
 	}
@@ -204,15 +208,16 @@ func (o *op07) String() string {
 }
 
 type world07 struct {
-	ojP  *oj.Parser
-	ojV  *oj.Validator
-	ojT  *oj.Tokenizer
-	ojW  *oj.Writer
-	genP *gen.Parser
-	senP *sen.Parser
-	senT *sen.Tokenizer
-	senW *sen.Writer
-	prW  *pretty.Writer
+	ojP   *oj.Parser
+	ojV   *oj.Validator
+	ojT   *oj.Tokenizer
+	ojW   *oj.Writer
+	genP  *gen.Parser
+	senP  *sen.Parser
+	senT  *sen.Tokenizer
+	senW  *sen.Writer
+	prW   *pretty.Writer
+	fresh bool // reference pass: a new world for this one call
 }
 
 func newWorld07() *world07 {
@@ -477,6 +482,9 @@ func drawOp07(t *rapid.T, faults bool, th *theme07) *op07 {
 			}
 		default:
 			o.Fn = []string{"String", "String(opts)", "Write", "Write(opts)", "String(int)", "Write(int)", "Bytes"}[sim.Intn(t, 7, "fn")]
+		}
+		if (o.Subj == "oj.Writer" || o.Subj == "sen.Writer" || o.Subj == "pretty.Writer") && sim.Intn(t, 3, "keepopts") == 2 {
+			o.Keep = true // resolved in propC07 (the first call on a subject cannot keep anything)
 		}
 		if faults && sim.Intn(t, 3, "wfault") == 2 {
 			o.Faulty = true
@@ -872,9 +880,19 @@ func (o *op07) exec(w *world07) (r *res07) {
 		}
 	}
 	opt := o.Opt
+	// the effective options of a Writer call: the drawn ones, with the write limit for the streaming functions. A
+	// "keep" call on a used Writer sets nothing - it runs on what the previous call left in the Writer -, on the
+	// fresh instance it sets what the user had set last.
+	eff := opt
+	if !o.Keep && o.Fn == "Write" {
+		eff.WriteLimit = o.Limit
+	}
+	set := !o.Keep || w.fresh
 	switch o.Subj {
 	case "oj.Writer":
-		w.ojW.Options = opt
+		if set {
+			w.ojW.Options = eff
+		}
 		switch o.Fn {
 		case "JSON":
 			finishText([]byte(w.ojW.JSON(o.Value)), nil, nil)
@@ -889,28 +907,30 @@ func (o *op07) exec(w *world07) (r *res07) {
 				r.Retained = []any{out}
 			}
 		default:
-			w.ojW.WriteLimit = o.Limit
 			sw := sim.NewSimWriter(o.FailCall)
 			err := w.ojW.Write(sw, o.Value)
 			finishText(nil, err, sw)
 		}
 	case "sen.Writer":
-		w.senW.Options = opt
+		if set {
+			w.senW.Options = eff
+		}
 		if o.Fn == "SEN" {
 			finishText([]byte(w.senW.SEN(o.Value)), nil, nil)
 		} else {
-			w.senW.WriteLimit = o.Limit
 			sw := sim.NewSimWriter(o.FailCall)
 			err := w.senW.Write(sw, o.Value)
 			finishText(nil, err, sw)
 		}
 	case "pretty.Writer":
 		// (Mode carries the pretty configuration: width, max depth, align, SEN)
-		w.prW.Options = opt
-		w.prW.Width = []int{80, 40, 20, 10}[o.Mode%4]
-		w.prW.MaxDepth = 1 + o.Mode/4%4
-		w.prW.Align = o.Mode/16%2 == 1
-		w.prW.SEN = o.Mode/32%2 == 1
+		if set {
+			w.prW.Options = eff
+			w.prW.Width = []int{80, 40, 20, 10}[o.Mode%4]
+			w.prW.MaxDepth = 1 + o.Mode/4%4
+			w.prW.Align = o.Mode/16%2 == 1
+			w.prW.SEN = o.Mode/32%2 == 1
+		}
 		switch o.Fn {
 		case "Encode":
 			out := w.prW.Encode(o.Value)
@@ -920,7 +940,6 @@ func (o *op07) exec(w *world07) (r *res07) {
 			out, err := w.prW.Marshal(o.Value)
 			finishText(append([]byte(nil), out...), err, nil)
 		default:
-			w.prW.WriteLimit = o.Limit
 			sw := sim.NewSimWriter(o.FailCall)
 			err := w.prW.Write(sw, o.Value)
 			finishText(nil, err, sw)
@@ -1088,6 +1107,30 @@ func propC07(cx *sim.Ctx) {
 	c.Faults = sim.Intn(t, 3, "faultconfig") > 0
 	th := drawTheme07(t)
 	ops := rapid.SliceOfN(rapid.Custom(func(t *rapid.T) *op07 { return drawOp07(t, c.Faults, th) }), 2, 10).Draw(t, "ops")
+	// resolve the "keep" calls: they run on the options the user set last on that subject
+	{
+		type lastSet struct {
+			opt  ojg.Options
+			mode int
+		}
+		last := map[string]*lastSet{}
+		for _, o := range ops {
+			if o.IsParse || (o.Subj != "oj.Writer" && o.Subj != "sen.Writer" && o.Subj != "pretty.Writer") {
+				continue
+			}
+			streaming := o.Fn == "Write"
+			if o.Keep && last[o.Subj] != nil {
+				o.Opt, o.Mode = last[o.Subj].opt, last[o.Subj].mode
+				continue
+			}
+			o.Keep = false
+			e := o.Opt
+			if streaming {
+				e.WriteLimit = o.Limit
+			}
+			last[o.Subj] = &lastSet{opt: e, mode: o.Mode}
+		}
+	}
 	// drop order-dependent writes (result depends on Go's map order, which the simulator does not own)
 	for _, o := range ops {
 		if o.orderIndependent() {
@@ -1111,7 +1154,9 @@ func propC07(cx *sim.Ctx) {
 	refRes := make([]*res07, len(c.Ops))
 	for i, o := range c.Ops {
 		vsync.Restart()
-		refRes[i] = o.exec(newWorld07())
+		fw := newWorld07()
+		fw.fresh = true
+		refRes[i] = o.exec(fw)
 		cx.Exec()
 	}
 	cx.BaselineDone()
